@@ -181,6 +181,8 @@ def main(argv):
     H = importlib.import_module('harness.' + prop)
     if tier == '--replay':
         return replay_main(prop, H, argv[3])
+    if tier == 'selfcheck':
+        return selfcheck_main(prop, H)
     cfgs = H.configs(tier)
     n = len(cfgs)
     nproc = max(1, min(NPROC, n, getattr(H, 'NPROC', NPROC)))
@@ -322,6 +324,52 @@ def report(prop, tier, seed, H, cfgs, results, died, wall):
     if inconclusive:
         return 2
     return 0
+
+
+def selfcheck_main(prop, H):
+    """differential self-check of the engine (DESIGN 2.7): every case is run once with CONSTANT inputs through the
+    symbolic machinery (proxy, stubs, models) and once on the unmodified float path; the values of all obligations'
+    left-hand sides must agree.  Validates the numpy proxy / scipy stubs / transpilers, not the repository."""
+    import warnings
+    warnings.filterwarnings('ignore')
+    from symx import run, core
+    cfgs = H.configs('quick')
+    per_case = {}
+    for c in cfgs:
+        per_case.setdefault(c['case'], [])
+        if len(per_case[c['case']]) < int(os.environ.get('VERIF_SELFCHECK_N', '6')):
+            per_case[c['case']].append(c)
+    bad = 0
+    n = 0
+    for case_name, lst in per_case.items():
+        for cfg in lst:
+            core.C.assume_pos_sqrt = bool(getattr(H, 'ASSUME_SQRT_ARGS_POSITIVE', False))
+            core.C.skip_unknown = True
+            core.C.deadline = time.time() + 60
+            try:
+                rs = run.run_symbolic(H.CASES[case_name], cfg, max_paths=1, consts=True, seed=7, timeout_ms=5000)
+            except BaseException as e:
+                print(f'selfcheck {prop}:{case_name}: symbolic-constant run failed: {type(e).__name__}: {e}')
+                bad += 1
+                continue
+            finally:
+                core.C.deadline = None
+            vals = None
+            try:
+                t, status, exc = run.run_concrete(H.CASES[case_name], cfg, values=None, choices=[0] * 64, seed=7)
+            except core.Infeasible:
+                continue        # the random constants fall outside the assumed input domain of this case
+            sym = dict(rs.get('records', []))
+            con = dict(t.records)
+            common = [k for k in sym if k in con]
+            n += len(common)
+            for k in common:
+                if not run._feq(float(sym[k]) if sym[k] is not None else float('nan'), float(con[k]), 1e-6):
+                    bad += 1
+                    print(f'selfcheck {prop}:{case_name} {json.dumps(_jsonable(cfg))[:120]}: {k}: engine {sym[k]} vs float {con[k]}')
+                    break
+    print(f'selfcheck {prop}: {n} values compared over {sum(len(v) for v in per_case.values())} configurations, {bad} disagreements')
+    return 0 if bad == 0 else 2
 
 
 def replay_main(prop, H, path):
